@@ -27,6 +27,50 @@ def project(rows):
     return ["".join(r[k] for k in keep) for r in rows]
 
 
+def leafsets(events):
+    """node id -> set of ranks of the leaves below it, from the TASKS and CANON events (None if not logged)"""
+    canon, tasks = None, None
+    for ln in events or []:
+        if ln.startswith("CANON"):
+            canon = [int(x) for x in ln.split()[1:]]
+        elif ln.startswith("TASKS"):
+            tasks = [tuple(int(v) for v in x.split(",")) for x in ln.split()[1:]]
+    if canon is None or tasks is None:
+        return None
+    ls = {i: {canon[i]} for i in range(len(canon))}
+    pending = list(tasks)
+    for _ in range(len(tasks) + 2):
+        rest = []
+        for a, b, cc in pending:
+            if a in ls and b in ls:
+                ls[cc] = ls[a] | ls[b]
+            else:
+                rest.append((a, b, cc))
+        pending = rest
+        if not pending:
+            break
+    return ls
+
+
+def scale_case(rng):
+    """two sub-families of one protein family, each with > 4096 members and its own extra segment: nodes with thousands of members whose
+    parent merge inserts gap columns into them"""
+    aa = gen.AA
+    base = gen.rand_seq(rng, aa, 60)
+
+    def mut(s, k):
+        s = list(s)
+        for p in rng.sample(range(len(s)), k):
+            s[p] = rng.choice(aa)
+        return "".join(s)
+    f1 = mut(base[:15] + gen.rand_seq(rng, aa, 4) + base[15:], 8)
+    f2 = mut(base[:44] + gen.rand_seq(rng, aa, 5) + base[44:], 8)
+    n1, n2 = rng.randint(4200, 5200), rng.randint(4200, 5200)
+    recs = [("P%05d" % i, mut(f1, rng.randint(1, 4))) for i in range(n1)] + [("Q%05d" % i, mut(f2, rng.randint(1, 4))) for i in range(n2)]
+    rng.shuffle(recs)
+    return Case(recs, 5, threads=rng.choice([4, 16]), fmt="fasta", api="file", evlog=True, tag="scale")
+
+
 def cases(ctx, n, thorough):
     rng = ctx.rng
     out = []
@@ -62,6 +106,9 @@ def run(ctx):
     kvh = C.build_harness("asan")
     cs = cases(ctx, 60 if ctx.quick else 500, not ctx.quick)
     sysrun.run_cases(kvh, cs)
+    big = [scale_case(ctx.rng) for _ in range(1 if ctx.quick else 3)]
+    sysrun.run_cases(C.build_harness("plain"), big, env={"KV_ND_MIN": "1500"}, timeout=1800)
+    cs += big
     fails, model_lines, expected, where = [], [], [], []
     # whole pipeline (recAln_subalignment_preserved is about the recAln of this function)
     diffs = C.pipeline_correspondence(ctx, kvh, [3 * ctx.seed + 1000] if ctx.quick else [3 * ctx.seed + 1000 + 30 * k for k in range(4)])
@@ -81,8 +128,20 @@ def run(ctx):
             fails.append(("no NODE_DONE events logged", c, None))
             continue
         ctx.count("trees_%s" % ("kmeans" if len(c.records) >= 100 else "upgma"))
+        leaves = leafsets(c.events)
         for e in nd:
             members = e["A"] + e["B"]
+            if leaves is not None:
+                # the members a completed node carries must be exactly the leaves below it in the task tree (independent of the library's
+                # own member counts): a node that lost members would leave them out of every later merge
+                bad = None
+                for side, node in (("A", e["a"]), ("B", e["b"])):
+                    if node in leaves and set(r for r, g in e[side]) != leaves[node]:
+                        bad = "node %d (operand of task %d) carries %d members but %d leaves lie below it in the guide tree" % (node, e["task"], len(e[side]), len(leaves[node]))
+                if bad:
+                    fails.append((bad, c, dict(task=e["task"], a=e["a"], b=e["b"])))
+                    break
+                ctx.count("member_sets_checked")
             snap = [linear(c.records[r][1], g) for r, g in members]
             proj = project([final[r] for r, g in members])
             ctx.count("nodes_checked")
@@ -92,7 +151,8 @@ def run(ctx):
                 break
             if len(members) >= 2 and len(members) < len(rows) and len(final[members[0][0]]) > len(snap[0]):
                 ctx.nontriv((c.key(), e["task"]))
-        c01.check_steps(ctx, c, model_lines, expected, where)
+        if c.tag != "scale":
+            c01.check_steps(ctx, c, model_lines, expected, where)
         if len(ctx.samples) < 3 and len(c.records) <= 5:
             ctx.sample(dict(input=c.records, rows=rows, merges=[dict(a=e["a"], b=e["b"], codes=e["codes"]) for e in nd]))
     if model_lines:
